@@ -51,6 +51,9 @@ type Node struct {
 	// StalledUntil: the node's process is suspended (VM pause, swap storm) until this simulated instant: it runs no
 	// step, answers no request; what the network delivers meanwhile waits in its buffers
 	StalledUntil time.Duration
+	// MutedUntil: what the node publishes (own blocks, commits, forwarded gossip) reaches nobody until this instant
+	// (one-way trouble: it still hears everybody and answers requests)
+	MutedUntil time.Duration
 	Keys        []*Validator // validators this node generates for
 	Log         *ringLogger
 	Starts      int
